@@ -64,7 +64,7 @@ MANIFEST = dict(
 )
 FLOORS = {"C10.1": 3, "C10.2": 2, "C10.3": 4, "C10.4": 2, "C10.5": 1,
           "C10.6": 12, "C10.7": 4, "C10.8": 6, "C10.9": 2,
-          "C10.10": 1}
+          "C10.10": 1, "C10.11": 2}
 
 FI = "evo.core.filters.filter_pairs_by_index"
 FP = "evo.core.filters.filter_pairs_by_path"
@@ -109,6 +109,12 @@ def check(ctx):
     ctx.section(_callers, ctx, prog)
     from .c11 import accumulated_distances_rule
     ctx.section(accumulated_distances_rule, ctx, "C10.10")
+    # the angle-based selection accumulates / compares so3_log_angle of
+    # relative rotations: the angle must be the norm of the rotation vector
+    # for *every* rotation, also the very small per-frame ones (C09.4)
+    from ..core import import_rules
+    n = import_rules(ctx, "c09", ("C09.4",), "C10.11")
+    ctx.require(n >= 2, "C10.11: rotation-angle instances not found")
 
 
 def _callers(ctx, prog):
@@ -864,15 +870,29 @@ def _dispatch(ctx, prog):
         # empty-result one
         res = calls[0].data["result"]
         n_ = tm.call(tm.glob("builtins.len"), (POSES,), ())
+        di = tm.call(tm.glob("builtins.int"), (DELTA,), ())
         for e in r.of_kind("raise"):
             if tm.is_const(e.live, False):
                 continue
             cm = comparisons(e.live)
             if any(c[1] == "Eq" and tm.is_const(c[2], 0) and
                    is_call_to(c[0], "builtins.len") and
-                   c[0].args[1][0] is res for c in cm):
+                   (c[0].args[1][0] is res or c[0].args[1][0] is r.ret)
+                   for c in cm):
                 continue
             di = tm.call(tm.glob("builtins.int"), (DELTA,), ())
+            sampled = _frames_no_pair(e.live, n_, di, DELTA) \
+                if member == "frames" else None
+            if sampled is not None:
+                ctx.ob("C10.6", e, sampled,
+                       f"delta unit {member}: early refusal only when no "
+                       f"pair can exist (delta > len(poses) - 1)"
+                       if sampled else
+                       f"delta unit {member}: the refusal under "
+                       f"{fmt(e.live)[:100]} also hits delta = N - 1, for "
+                       f"which the pair (0, N-1) exists (off by one)",
+                       key=f"C10.6:{member}:early-refusal")
+                continue
             safe = member == "frames" and len(cm) == 1 and (
                 cm[0] in ((n_, "LtE", di), (n_, "LtE", DELTA),
                           (T("binop", "Sub", n_, const(1)), "Lt", di),
@@ -903,8 +923,27 @@ def _dispatch(ctx, prog):
                     is_call_to(c[0], "builtins.len") and
                     c[0].args[1][0] is res for c in comparisons(e.live))]
         rets = r.of_kind("return")
+        # the list that is tested / returned: the filter's, or [] where no
+        # pair can exist anyway (a shortcut for a too large frame delta)
+        ret_ok = r.ret is res
+        if not ret_ok and member == "frames" and r.ret.op == "ite":
+            alts = [(r.ret.args[0], r.ret.args[1]),
+                    (T("not", r.ret.args[0]), r.ret.args[2])]
+            short = [(c, a) for c, a in alts if a is T("list")]
+            rest = [a for c, a in alts if a is not T("list")]
+            if len(short) == 1 and rest == [res] and _frames_no_pair(
+                    short[0][0], n_, di, DELTA) is True:
+                ret_ok = True
+                res = r.ret
+                empt = [e for e in r.of_kind("raise")
+                        if "FilterException" in (e.data.get("exc_name")
+                                                 or "") and
+                        any(c[1] == "Eq" and tm.is_const(c[2], 0) and
+                            is_call_to(c[0], "builtins.len") and
+                            c[0].args[1][0] is res
+                            for c in comparisons(e.live))]
         ok = bool(empt) and bool(rets) and empt[0].idx < rets[-1].idx and \
-            r.ret is res
+            ret_ok
         ctx.ob("C10.6", f, ok,
                f"delta unit {member}: an empty pair list raises "
                f"FilterException; otherwise the filter's list is returned "
@@ -912,6 +951,33 @@ def _dispatch(ctx, prog):
                f"delta unit {member}: empty result is not turned into "
                f"FilterException (or the list is altered): {fmt(r.ret)}",
                key=f"C10.6:{member}:empty")
+
+
+def _frames_no_pair(cond: T, n_: T, di: T, delta: T) -> Optional[bool]:
+    """does `cond` hold only where a frame delta admits no pair (delta >
+    len(poses) - 1)?  Decided on sample values of (len(poses), delta);
+    None where the condition cannot be evaluated"""
+    from ..lib import const_eval
+    hit = False
+    for n in range(0, 8):
+        for d in range(1, 10):
+            env = {n_: n, di: d, delta: d}
+
+            def assign(a, env=env):
+                if a.op == "iter":
+                    return True
+                try:
+                    return bool(const_eval(a, env))
+                except Exception:
+                    return None
+            v = tm.fold(cond, assign)
+            if v is None:
+                return None
+            if v:
+                hit = True
+                if d <= n - 1:
+                    return False
+    return True if hit else None
 
 
 VARIANTS = [
